@@ -39,7 +39,10 @@ Tc == <<99>>
 To == <<111>>
 IntV(n) == [t |-> "int", v |-> n]
 StrV(s) == [t |-> "str", v |-> s]
-ExVal(ty, k, j) == IF ty = "integer" THEN IntV(10 * k + j) ELSE StrV(<<115, Cp(k), Cp(j)>>)          \* 11, 12 .. / "s11", ..
+ExVal(ty, k, j) == IF ty = "integer" THEN IntV(10 * k + j)                                         \* 11, 12, ..
+                   ELSE IF ty = "text" THEN StrV(<<115, 38, 61, 32, 233, 37, 43, Cp(k), Cp(j)>>)      \* "s&= e'%+11": needs escaping on the wire
+                   ELSE StrV(<<115, Cp(k), Cp(j)>>)                                                   \* "s11", ..
+TyOf(ty) == IF ty = "text" THEN "string" ELSE ty
 Leaf(ty) == [sk |-> "schema", type |-> <<ty>>]
 Empty == [sk |-> "schema"]
 
@@ -141,7 +144,7 @@ ParamPlaces2 == {"none", "example", "x-example", "x-examples"}
 PO(places) == {x \in places \X (0..3) : x[2] \in PlaceCounts(x[1])}
 
 Param(k, loc, req, ty, po) ==
-  LET pl == Place(po[1], po[2], Leaf(ty), [j \in 1..po[2] |-> ExVal(ty, k, j)])
+  LET pl == Place(po[1], po[2], Leaf(TyOf(ty)), [j \in 1..po[2] |-> ExVal(ty, k, j)])
   IN [name |-> PName(k), loc |-> loc, required |-> req \/ loc = "path", schema |-> pl.schema, ex |-> pl.ex, place |-> po[1]]
 BadHeaderParam(k) == [name |-> PName(k), loc |-> "header", required |-> FALSE, schema |-> Leaf("string"),
                       ex |-> Outer("example", <<StrV(<<98, 10, 100>>)>>), place |-> "example"]        \* "b\nd"
@@ -195,7 +198,7 @@ InitB == \E n1 \in 0..3, n2 \in 0..3, n3 \in 0..3, pl \in (IF Thorough THEN {"ex
            op = Op("3.0", <<Param(1, "query", FALSE, "integer", <<IF n1 = 0 THEN "none" ELSE pl, n1>>),
                             Param(2, "query", TRUE, "string", <<IF n2 = 0 THEN "none" ELSE "examples", n2>>),
                             Param(3, "header", TRUE, "string", <<IF n3 = 0 THEN "none" ELSE "schema-examples", n3>>)>>, <<>>, "three-params")
-InitC == \E loc \in {"query", "header", "path", "cookie"}, req \in BOOLEAN, ty \in {"integer", "string"},
+InitC == \E loc \in {"query", "header", "path", "cookie"}, req \in BOOLEAN, ty \in {"integer", "string", "text"},
             po \in {<<"none", 0>>, <<"example", 1>>, <<"examples", 2>>, <<"schema-example", 1>>, <<"anyOf", 2>>} :
            \* locations and types
            op = Op("3.0", <<Param(1, loc, req, ty, po)>>, <<>>, "locations")
@@ -221,7 +224,11 @@ InitH == /\ Thorough                                  \* three parameters, every
          /\ \E a \in PO(ParamPlaces3), b \in PO(ParamPlaces3), c \in PO(ParamPlaces3) :
               op = Op("3.0", <<Param(1, "query", FALSE, "integer", a), Param(2, "query", TRUE, "string", b), Param(3, "header", FALSE, "string", c)>>,
                       <<>>, "three-mixed")
-Init == InitA \/ InitB \/ InitC \/ InitD \/ InitE \/ InitF \/ InitG \/ InitH
+InitI == /\ Thorough                                  \* every placement of a path parameter x a cookie x a body with property examples
+         /\ \E a \in PO(ParamPlaces3) \ {<<"none", 0>>}, b \in Few3, ty \in {"integer", "text"},
+               bs \in {<<Body(1, MTJson, TRUE, <<"property", 3>>)>>, <<Body(1, MTJson, FALSE, <<"items-property", 2>>), Body(2, MTTextJson, FALSE, <<"schema-example", 1>>)>>} :
+              op = Op("3.0", <<Param(1, "path", TRUE, ty, a), Param(2, "cookie", FALSE, "string", b)>>, bs, "path-cookie-body")
+Init == InitI \/ InitA \/ InitB \/ InitC \/ InitD \/ InitE \/ InitF \/ InitG \/ InitH
 Next == UNCHANGED op
 Spec == Init /\ [][Next]_op
 
